@@ -27,6 +27,9 @@
 #ifndef FORCED
 #define FORCED 0
 #endif
+#ifndef DLE
+#define DLE 0       // 1: data length extension in the receive direction: max_rx_size( 70 ), central payloads of 31, 32, 33 and 64 octets
+#endif
 #ifndef MODE
 #define MODE 0      // 0: both directions; 1: receive direction only ( nothing is committed ); 2: transmit direction only ( the central sends empty PDUs )
 #endif
@@ -171,6 +174,7 @@ struct World
     void init()
     {
         dut_t::place( dut );
+        apply_dle();
         memset( &ref, 0, sizeof ref );
         ref.up_last = 0xff;
     }
@@ -215,7 +219,13 @@ struct World
         if ( owner != 16 ) c.prune = true;
     }
 
+#if DLE
+    static unsigned central_len( unsigned id ) { static const unsigned l[ 4 ] = { 32, 31, 64, 33 }; return l[ id & 3 ]; }   // 32 and 64: low 5 bits of the length are 0
+    void apply_dle() { dut->max_rx_size( 70 ); }
+#else
     static unsigned central_len( unsigned id ) { return ( id & 1 ) ? 1u : max_pl; }
+    void apply_dle() {}
+#endif
     static_assert( IDM <= 8, "bit 3 of the payload tag is the connection generation" );
     // payload tag of PDU id in the current connection: ids restart with every connection, bit 3 tells the connections apart
     unsigned tag( unsigned id ) const { return id | ( ( ref.resets & 1 ) ? 8u : 0u ); }
@@ -350,6 +360,7 @@ struct World
         // advertising; afterwards reset_pdu_buffer() starts the connection and the encryption counters restart
         memset( dut->raw_pdu_buffer(), 0xAD, dut_t::size );
         dut->reset_pdu_buffer();
+        apply_dle();        // reset_pdu_buffer() falls back to 29, the new connection negotiates the length again
         dut->rx_cnt = 0; dut->tx_cnt = 0;
         Ref& r = ref;
         r.c_sn = r.c_nesn = 0; r.c_has_last = r.c_last_data = r.c_last_id = r.c_last_sn = r.c_last_acked = r.c_last_llid0 = 0;
